@@ -6,14 +6,14 @@ from simlab import chain_evolve
 BASE = {
     "ttno": 2.0, "ttno_same": 1.0, "ttns_random": 3.0, "ttns_product": 0.6, "from_mps": 0.5,
     "add": 2.5, "scale": 1.2, "unary": 1.0, "apply": 2.5, "canonicalise": 1.2, "compress": 1.5,
-    "observe": 4.0, "evolve": 0.0, "lockstep": 0.0, "dump_load": 0.4, "drop": 0.3,
+    "observe": 4.0, "evolve": 0.0, "lockstep": 0.0, "max_entangled": 0.4, "dump_load": 0.4, "drop": 0.3,
 }
 
 TWEAKS = {
     "C02": {"ttno": 8.0, "ttno_same": 4.0, "ttns_random": 1.0, "add": 0.3, "scale": 0.2, "unary": 0.2, "apply": 1.5, "canonicalise": 0.2, "compress": 0.2,
             "observe": 1.5, "dump_load": 0.0, "from_mps": 0.2, "ttns_product": 0.2},
     "C11": {},
-    "C12": {"evolve": 9.0, "lockstep": 1.5, "ttno": 2.5, "ttns_random": 2.5, "observe": 0.8, "add": 0.8, "apply": 0.8, "compress": 0.5, "dump_load": 0.2},
+    "C12": {"evolve": 9.0, "lockstep": 1.5, "max_entangled": 1.0, "ttno": 2.5, "ttns_random": 2.5, "observe": 0.8, "add": 0.8, "apply": 0.8, "compress": 0.5, "dump_load": 0.2},
 }
 
 
@@ -25,7 +25,8 @@ class TreeProfile(session.Profile):
 
     def gen_header(self, rnd, tier):
         md = rnd.choice([16, 36, 64]) if self.pid == "C12" else rnd.choice([24, 64, 128])
-        h = tree.gen_header(rnd, maxdim=md, nmax=rnd.choice([3, 4, 5]))
+        aux = rnd.random() < {"C02": 0.1, "C11": 0.2, "C12": 0.3}.get(self.pid, 0.2)
+        h = tree.gen_header(rnd, maxdim=md, nmax=rnd.choice([3, 4, 5]), aux=aux)
         wts = dict(BASE)
         wts.update(TWEAKS.get(self.pid, {}))
         for k in list(wts):
